@@ -11,6 +11,10 @@ def run(tier):
     builds = ["asan-avx2", "prod-avx2"] if q else ["asan-avx2", "prod-avx2", "asan-sse", "prod-dyn"]
     recs = M.gen_pairs(ctx, 3, 3, 4, "Gen_Schema_33") if q else M.gen_pairs(ctx, 4, 3, 4, "Gen_Schema_43")
     recs += M.gen_pairs(ctx, 3, 3 if not q else 2, 5, "Gen_Schema_esc")       # keys with escaped spellings
+    recs += M.gen_pairs(ctx, 3, 2, 4, "Gen_Schema_32_ws", laye=2, layv=3)       # blanks around ':' and ',', 65-blank runs
+    recs += M.gen_pairs(ctx, 3, 2, 4, "Gen_Schema_32_ws2", laye=3, layv=2)
+    recs += M.gen_pairs(ctx, 2, 2, 4, "Gen_Schema_widearr", smode="widearr")      # top-level arrays of 15..70 elements
+    recs += M.gen_pairs(ctx, 2, 2, 4, "Gen_Schema_wide3", smode="wide3", laye=0 if q else 1)
     rows = [[str(i), hexs(r["e"]), hexs(r["v"]), T.canon(r["lazy"])] for i, r in enumerate(recs)]
     fails = M.run_merge(ctx, "lazy", rows, builds, None, "")
     for b, idx, kind, detail in fails:
